@@ -33,6 +33,17 @@ def step (line : String) : String :=
         | some fv => evalOp op d fv
         | none => false)
     | none => "bad-case"
+  | "b" :: op :: lit :: _s :: flds =>
+    -- a bolt store with one entity per value (id = name = value): the answers to `id <op> lit`
+    -- and `name <op> lit`
+    match Bytes.ofHex lit with
+    | some l =>
+      let d := unescape Generated.unescapeTable l
+      let b := bits (flds.map fun f => match Bytes.ofHex f with
+        | some fv => evalOp op d fv
+        | none => false)
+      b ++ " " ++ b
+    | none => "bad-case"
   | _ => "bad-case"
 
 /-- spec verdict: the same, with the *intended* string `s` instead of the model's reading -/
@@ -44,6 +55,14 @@ def specStep (line : String) : String :=
     | some d => bits (flds.map fun f => match Bytes.ofHex f with
         | some fv => evalOp op d fv
         | none => false)
+    | none => "bad-case"
+  | "b" :: op :: _lit :: s :: flds =>
+    match Bytes.ofHex s with
+    | some d =>
+      let b := bits (flds.map fun f => match Bytes.ofHex f with
+        | some fv => evalOp op d fv
+        | none => false)
+      b ++ " " ++ b
     | none => "bad-case"
   | _ => "bad-case"
 
